@@ -33,24 +33,11 @@ HEADER = ("From PintV Require Import Model.UC Model.Eval Model.Grammar Model.Eva
           "Definition n2 := TNum \"2\". Definition n3 := TNum \"3\". Definition nm := TName \"m\".\n"
           "Definition ns := TName \"s\". Definition o (s : string) := TOp s.\n"
           "Definition B := Grammar.Bin.\n")
-def run_expr(f16):
-    return f"(c07_ok {'true' if f16 else 'false'} EvalTables.op_priority)"
+# the two switches of Eval.go_p come from the translator (Gen/EvalTables.v): the model mirrors the
+# shape of _build_eval_tree that the working tree has
+RUN = ("(c07_ok EvalTables.paren_juxt_any_priority EvalTables.pow_exempt_any_priority "
+       "EvalTables.op_priority)")
 
-
-F16_WITNESS = [("num", "6"), ("op", "/"), ("num", "2"), ("op", "("), ("num", "1"), ("op", "+"), ("num", "2"),
-               ("op", ")"), ("other", ""), ("end", "")]
-
-
-def f16_switch(ck):
-    """replay the F16 witness on the implementation: True = defect present (groups as 6/(2(1+2))),
-    False = repaired (((6/2)(1+2))), None = neither"""
-    r = pint_build(F16_WITNESS)
-    ck.extra["f16_witness"] = {"tokens": "6 / 2 ( 1 + 2 )", "pint_tree": r[1]}
-    if r == ("tree", "(6 / (2 (1 + 2)))"):
-        return True
-    if r == ("tree", "((6 / 2) (1 + 2))"):
-        return False
-    return None
 
 # ----------------------------------------------------------------------------- expression trees
 # ("num", text) ("name", text) ("neg", x) ("pos", x) ("bin", op, l, r) ("par", x)
@@ -407,6 +394,54 @@ def token_level(ck, rng, thorough):
             oracle_fail.append((key, f"'{toks_text(toks)}' groups as {r[1]}; juxtaposition = * would give {want}",
                                 {"tokens": toks, "pint": r, "expected_tree": want}))
 
+    # uncertain numbers "v +/- u" as primaries: (a) every sequence over {2, +/-, **, ^, (, )}, (b) legal
+    # trees with one leaf replaced by an uncertain number — "+/-" followed by ** / ^ in particular;
+    # pint's tree against the model in Coq, and against the tree in which the uncertain number is a primary
+    alpha_unc = [("num", "2"), ("op", "+/-"), ("op", "**"), ("op", "^"), ("op", "("), ("op", ")")]
+    for ln in range(0, (6 if thorough else 4) + 1):
+        for seq in itertools.product(alpha_unc, repeat=ln):
+            if ("op", "+/-") not in seq or seq in seen:
+                continue
+            seen.add(seq)
+            toks = list(seq) + [("end", "")]
+            r = pint_build(toks)
+            add(f"KBuild {coq_list([coq_tok(t) for t in toks])} {coq_bres(r)}",
+                {"stream": "exhaustive-unc-tokens", "tokens": toks, "pint": r})
+            ck.case(key=("useq", seq), nontrivial=True)
+            ck.count("unc-tokens:" + ("tree" if r[0] == "tree" else r[1]))
+    unc_pool = [t for t in trees if legal(t) and 2 <= leaves(t) <= 8]
+    n_unc = 0
+    for _ in range(6000 if thorough else 1200):
+        if not unc_pool:
+            break
+        e = rng.choice(unc_pool)
+        toks = render_cst(parenthesize(rng.choice(["min", "full"]), e))
+        pos = [i for i, t in enumerate(toks) if t[0] == "num"]
+        if not pos:
+            continue
+        # make the chosen leaf unique, then splice the uncertain number in
+        i = rng.choice(pos)
+        if rng.random() < 0.5:      # prefer a leaf that is the base of a power when there is one
+            powb = [j for j in pos if j + 1 < len(toks) and toks[j + 1] in (("op", "**"), ("op", "^"))]
+            if powb:
+                i = rng.choice(powb)
+        toks2 = toks[:i] + [("num", "1.5"), ("op", "+/-"), ("num", "0.1")] + toks[i + 1:]
+        marked = [("num", "@") if j == i else t for j, t in enumerate(toks)]
+        base = pint_build(marked + END)     # structure of the expression itself (already compared above)
+        r = pint_build(toks2 + END)
+        add(f"KBuild {coq_list([coq_tok(t) for t in toks2 + END])} {coq_bres(r)}",
+            {"stream": "unc-in-tree", "tokens": toks2 + END, "pint": r})
+        n_unc += 1
+        ck.case(key=("unctree", tuple(toks2)), nontrivial=True,
+                sample={"tokens": toks_text(toks2), "pint_tree": r[1]} if n_unc < 3 else None)
+        ck.count("unc-in-tree")
+        if base[0] == "tree":
+            want = base[1].replace("@", "(1.5 +/- 0.1)")
+            if r != ("tree", want):
+                oracle_fail.append(("uncertainty-tree:" + toks_text(toks2),
+                                    f"'{toks_text(toks2)}' groups as {r[1]}; with the uncertain number as a primary it is {want}",
+                                    {"tokens": toks2, "pint": r, "expected_tree": want}))
+
     # (iv) malformed streams: mutations of well-formed renderings
     n_mal = 0
     base = [t for t in trees if legal(t)]
@@ -502,10 +537,16 @@ def run(ck):
     t0 = time.time()
     from .common import NCPU
     shard = max(400, min(2500, -(-len(cases) // max(1, NCPU))))
-    sw = f16_switch(ck)
-    RUN = run_expr(sw is not False)
-    ck.extra["f16_switch"] = {True: "defect present (model: build)", False: "repaired (model: build_fixed)",
-                              None: "neither behaviour (model: build)"}[sw]
+    try:
+        import ast as _ast
+        from . import t2_eval
+        from .common import REPO
+        pa, pe = t2_eval.builder_shapes(_ast.parse((REPO / "pint" / "pint_eval.py").read_text()))
+        ck.extra["builder_switches_read_by_T2"] = {
+            "paren_juxt_any_priority": pa, "pow_exempt_any_priority": pe,
+            "meaning": "true = shape as first found (F16 resp. F41 present); the model Eval.go_p takes both as parameters"}
+    except Exception as ex:   # noqa: BLE001 — the build has already reported the translator error
+        ck.extra["builder_switches_read_by_T2"] = f"translator error: {ex}"
     bad = ck.coq_mismatches("c07", HEADER, cases, RUN, shard=shard) if ok else None
     timing["token_level_model_s"] = round(time.time() - t0, 1)
     ck.extra["timing"] = timing
